@@ -100,11 +100,19 @@ fn announce(tok: *const MemToken) {
     }
 }
 
-pub struct MemProg<const IDLE: bool, const THIRD: bool>(PhantomData<()>);
+/// VAR 0: writer [scan, scan], consumer [add_stream, remove_reader]
+/// VAR 1: writer [scan], consumer [add_stream]
+/// VAR 2: writer [scan], consumer [remove_reader]   (the stream was added during set-up)
+pub struct MemProg<const IDLE: bool, const THIRD: bool, const VAR: u8>(PhantomData<()>);
 
-impl<const IDLE: bool, const THIRD: bool> Prog for MemProg<IDLE, THIRD> {
+impl<const IDLE: bool, const THIRD: bool, const VAR: u8> Prog for MemProg<IDLE, THIRD, VAR> {
     const NACT: usize = if THIRD { 3 } else { 2 };
-    const LEN: [u8; MAXACT] = [if THIRD { 1 } else { 2 }, 2, if THIRD { 1 } else { 0 }, 0];
+    const LEN: [u8; MAXACT] = [
+        if THIRD || VAR != 0 { 1 } else { 2 },
+        if VAR == 0 { 2 } else { 1 },
+        if THIRD { 1 } else { 0 },
+        0,
+    ];
     const BASE: [usize; MAXACT] = [0, 4, 8, 0];
     fn step(a: usize, k: usize) {
         let w = mw();
@@ -120,7 +128,7 @@ impl<const IDLE: bool, const THIRD: bool> Prog for MemProg<IDLE, THIRD> {
                 assert!(d.is_some(), "C16: the writer's scan of the stream list failed");
                 w.scans += 1;
             }
-            (1, 0) => {
+            (1, 0) if VAR != 2 => {
                 announce(w.tr);
                 let r = w.cursor.add_stream(&w.r0, &w.mgr);
                 w.r1 = Some(r);
@@ -136,10 +144,10 @@ impl<const IDLE: bool, const THIRD: bool> Prog for MemProg<IDLE, THIRD> {
 }
 
 pub fn reclaim_protocol<const IDLE: bool, const OUTER: usize>(preload: usize, budget: u8) {
-    reclaim_protocol_d::<IDLE, false, OUTER>(preload, budget, 1)
+    reclaim_protocol_d::<IDLE, false, 0, OUTER>(preload, budget, 1)
 }
 
-pub fn reclaim_protocol_d<const IDLE: bool, const THIRD: bool, const OUTER: usize>(preload: usize, budget: u8, depth: u8) {
+pub fn reclaim_protocol_d<const IDLE: bool, const THIRD: bool, const VAR: u8, const OUTER: usize>(preload: usize, budget: u8, depth: u8) {
     sched::configure(depth, budget, sched::MEM_KINDS | (1 << sched::K_ALLOC), 2);
     let mgr = MemoryManager::new();
     let (cursor, r0) = ReadCursor::new(2);
@@ -150,6 +158,10 @@ pub fn reclaim_protocol_d<const IDLE: bool, const THIRD: bool, const OUTER: usiz
     }
     let mut w = MemWorld { mgr, cursor, r0, r1: None, tw, tr, scans: 0 };
     unsafe { MEMW = &mut w };
+    if VAR == 2 {
+        let r = w.cursor.add_stream(&w.r0, &w.mgr);
+        w.r1 = Some(r);
+    }
     let frees0 = al().total_frees;
     // pre-load retirements of dummy allocations through the real free()
     let mut i = 0;
@@ -159,7 +171,7 @@ pub fn reclaim_protocol_d<const IDLE: bool, const THIRD: bool, const OUTER: usiz
         w.mgr.free(p, 1);
         i += 1;
     }
-    run_concurrent::<MemProg<IDLE, THIRD>, OUTER>();
+    run_concurrent::<MemProg<IDLE, THIRD, VAR>, OUTER>();
     kani::cover!(sched::st().injected > 0, "an operation ran at a preemption point");
     // one more quiet round: both tokens announce, a retirement triggers try_freeing
     announce(w.tw);
@@ -178,10 +190,10 @@ pub fn reclaim_protocol_d<const IDLE: bool, const THIRD: bool, const OUTER: usiz
     std::mem::forget(w);
 }
 
-crate::mq_harness_real!(c16_protocol_o0, hk_c16_protocol_o0, Runner<MemProg<false, false>, 0>, reclaim_protocol::<false, 0>(20, 2));
-crate::mq_harness_real!(c16_protocol_o1, hk_c16_protocol_o1, Runner<MemProg<false, false>, 1>, reclaim_protocol::<false, 1>(20, 2));
-crate::mq_harness_real!(c16_protocol_idle_o0, hk_c16_protocol_idle_o0, Runner<MemProg<true, false>, 0>, reclaim_protocol::<true, 0>(20, 2));
-crate::mq_harness_real!(c16_protocol_seq, hk_c16_protocol_seq, Runner<MemProg<false, false>, 0>, reclaim_protocol::<false, 0>(20, 0));
+crate::mq_harness_real!(c16_protocol_o0, hk_c16_protocol_o0, Runner<MemProg<false, false, 0>, 0>, reclaim_protocol::<false, 0>(20, 2));
+crate::mq_harness_real!(c16_protocol_o1, hk_c16_protocol_o1, Runner<MemProg<false, false, 0>, 1>, reclaim_protocol::<false, 1>(20, 2));
+crate::mq_harness_real!(c16_protocol_idle_o0, hk_c16_protocol_idle_o0, Runner<MemProg<true, false, 0>, 0>, reclaim_protocol::<true, 0>(20, 2));
+crate::mq_harness_real!(c16_protocol_seq, hk_c16_protocol_seq, Runner<MemProg<false, false, 0>, 0>, reclaim_protocol::<false, 0>(20, 0));
 
 // ==========================================================================================
 // C17 churn (unit level, real MemoryManager): conservation of retired objects.  Every object
@@ -316,4 +328,10 @@ crate::mq_harness_real!(c16_wq_drop_seq, hk_c16_wq_drop_seq, Runner<WqDrop<BcB>,
 
 // nesting depth 2: the writer's scan is preempted by the consumer's add_stream / remove_reader, and
 // inside those (e.g. between two steps of MemoryManager::free) a third handle retires one more object
-crate::mq_harness_real!(c16_protocol_d2_o0, hk_c16_protocol_d2_o0, Runner<MemProg<false, true>, 0>, reclaim_protocol_d::<false, true, 0>(19, 3, 2));
+crate::mq_harness_real!(c16_protocol_d2_o0, hk_c16_protocol_d2_o0, Runner<MemProg<false, true, 0>, 0>, reclaim_protocol_d::<false, true, 0, 0>(19, 3, 2));
+
+// slim variants: one operation per actor, one injection
+crate::mq_harness_real!(c16_scan_vs_add, hk_c16_scan_vs_add, Runner<MemProg<false, false, 1>, 0>, reclaim_protocol_d::<false, false, 1, 0>(20, 1, 1));
+crate::mq_harness_real!(c16_add_vs_scan, hk_c16_add_vs_scan, Runner<MemProg<false, false, 1>, 1>, reclaim_protocol_d::<false, false, 1, 1>(20, 1, 1));
+crate::mq_harness_real!(c16_scan_vs_remove, hk_c16_scan_vs_remove, Runner<MemProg<false, false, 2>, 0>, reclaim_protocol_d::<false, false, 2, 0>(19, 1, 1));
+crate::mq_harness_real!(c16_remove_vs_scan, hk_c16_remove_vs_scan, Runner<MemProg<false, false, 2>, 1>, reclaim_protocol_d::<false, false, 2, 1>(19, 1, 1));
